@@ -91,6 +91,16 @@ func features(schema any) map[string]bool {
 					}
 				}
 			}
+			if hasEnum && (format == "date" || format == "time" || format == "date-time" || format == "ipv4" || format == "ipv6") {
+				f["enum+format"] = true
+			}
+			if contains(types, "integer") {
+				mn, okMin := toFloat(x["minimum"])
+				mx, okMax := toFloat(x["maximum"])
+				if (okMin && okMax && mn > mx) || (okMax && mx > 18446744073709551615.0-1) || (okMin && mn < -9223372036854775808.0) || (okMax && okMin && mn >= 0 && mx >= 9223372036854775808.0) {
+					f["integer-bounds-not-representable"] = true
+				}
+			}
 			if hasEnum {
 				seen := map[string]bool{}
 				for _, e := range enum {
@@ -260,6 +270,8 @@ var c01Rules = []genRule{
 	{"ANYOF_BRANCH_TYPED_ADDL_MISSING_IMPORTS", regexp.MustCompile(`undefined: (reflect|strings|mapstructure)`), "anyof-branch-typed-addl"},
 	{"ANYOF_NON_OBJECT_BRANCH_UNDEFINED", regexp.MustCompile(`undefined: \w+_\d+`), "anyof-non-object-branch"},
 	{"ANYOF_REF_TO_METHODLESS_DEFINITION", regexp.MustCompile(`\w+\.Unmarshal(JSON|YAML) undefined \(type \w+ has no field or method Unmarshal(JSON|YAML)\)`), "anyof-ref-branch"},
+	{"ENUM_WITH_FORMAT_MISSING_IMPORT", regexp.MustCompile(`undefined: (time|netip|types)`), "enum+format"},
+	{"SIZED_BOUND_NOT_REPRESENTABLE", regexp.MustCompile(`-?\d+ \(untyped int constant\) overflows u?int\d*`), "integer-bounds-not-representable"},
 	{"DESCRIPTION_BUILD_CONSTRAINT", regexp.MustCompile(`^not gofmt-stable$`), "description-build-line"},
 	{"PATTERN_BACKTICK", regexp.MustCompile(`^(parse: |format warning: )`), "pattern-backtick"},
 	{"NUL_IN_TEXT", regexp.MustCompile(`illegal character NUL`), "nul-in-text"},
